@@ -148,6 +148,20 @@ def first_diff(a, b, path=""):
     return None if a == b else f"{path}: {a!r:.300} != {b!r:.300}"
 
 
+def merge_kw_into_settings(settings, kw):
+    """The configuration that says what the keywords say: used to compare parse(**kw) with a fresh object configured that way."""
+    out = dict(settings)
+    for k, v in kw.items():
+        out[k] = v
+    # an exact depth and a min/max pair exclude each other: the kind given as keyword wins
+    if "qq_depth" in kw:
+        out.pop("qq_depth_min", None)
+        out.pop("qq_depth_max", None)
+    elif "qq_depth_min" in kw or "qq_depth_max" in kw:
+        out.pop("qq_depth", None)
+    return out
+
+
 _last = {}
 
 
@@ -204,6 +218,23 @@ def oracle_plss(c):
                 committed += 1
                 if not compare(i, "parse"):
                     break
+                # the keywords say what a configuration could say: a fresh object configured that way and parsed plainly gives the same
+                if kw:
+                    merged = merge_kw_into_settings(parse_cfg, kw)
+                    g = PLSSDesc(text, config=configs.to_text(merged))
+                    og, od = observable_plss(plss_snap(g)), observable_plss(plss_snap(d))
+                    for part in ("tracts", "current_layout", "pp_desc"):
+                        if part == "tracts":
+                            a = [{k: t[k] for k in ("trs", "desc", "lots", "qqs")} for t in og["tracts"]]
+                            b = [{k: t[k] for k in ("trs", "desc", "lots", "qqs")} for t in od["tracts"]]
+                        else:
+                            a, b = og[part], od[part]
+                        if a != b:
+                            fails.append(Failure(f"plss_keywords_differ_from_configured:{part}", f"step {i}: parse({kw}) over {configs.to_text(parse_cfg)!r} gives {part} {b!r:.300}, a fresh object configured {configs.to_text(merged)!r} gives {a!r:.300}",
+                                                 text=text, ops=c["ops"][:i + 1], init=c["init"]))
+                            break
+                    if fails:
+                        break
                 # the same settings as at an earlier committed parse of this object: the same results
                 key = repr((sorted(parse_cfg.items()), sorted(kw.items())))
                 now = observable_plss(plss_snap(d))
@@ -329,6 +360,13 @@ def oracle_tract(c):
                     fails.append(Failure(f"tract_parse_differs_from_fresh:{kind}", f"step {i}: parse({kw}) result differs from a fresh Tract with the same settings at {diff}",
                                          text=text, ops=c["ops"][:i + 1], init=c["init"]))
                     break
+                if kw:
+                    merged = merge_kw_into_settings(accum, kw)
+                    g = make(dict(merged, parse_qq=True))
+                    if (list(g.lots), list(g.qqs), g.pp_desc) != (list(t.lots), list(t.qqs), t.pp_desc):
+                        fails.append(Failure("tract_keywords_differ_from_configured", f"step {i}: parse({kw}) over {configs.to_text(accum)!r} gives {t.lots} {t.qqs}, a fresh Tract configured {configs.to_text(merged)!r} gives {g.lots} {g.qqs}",
+                                             text=text, ops=c["ops"][:i + 1], init=c["init"]))
+                        break
                 snap1 = tract_snap(t)
                 t.parse(**kw)
                 diff = first_diff(snap1, tract_snap(t))
